@@ -36,6 +36,8 @@ var c05Spellings = map[string]*vSpelling{
 	// redirect routes whose destination mentions the request right after the host (documented form host$path)
 	"redirdst": {optAll: true, opt: map[string]string{"": "redirect=301", "strip=/x": "redirect=302 strip=/x"},
 		dst: map[string]string{"http://u1:80/": "http://u1.test$path", "http://u2:80/": "https://u2.test$path", "http://u1:80/?v=2": "http://u1.test/$path", "http://x@u1:80/": "http://$host$path"}},
+	// access rules fabio cannot process (fail closed): the options of the target are still those of the command
+	"badacl": {optAll: true, opt: map[string]string{"": "allow=ip:10.0.0.0/33", "strip=/x": "strip=/x allow=ip:1.2.3.4 deny=ip:5.6.7.8"}},
 	// the custom backend's JSON may carry "tags": [] - an empty list is no tag selection
 	"emptytags": {emptyTags: true},
 	"opteq":     {opt: map[string]string{"strip=/x": "strip=/v=1 prepend=/p=q= host=dst flag"}, sep: []string{" ", "\t"}},
@@ -142,7 +144,7 @@ func TestVerifC05(t *testing.T) {
 	var wg sync.WaitGroup
 	var sampleMu sync.Mutex
 	var samples []string
-	spNames := []string{"spaces", "backslash", "unicode", "punct", "opteq", "duptags", "redirdst"}
+	spNames := []string{"spaces", "backslash", "unicode", "punct", "opteq", "duptags", "redirdst", "badacl"}
 	for w := 0; w < runtime.NumCPU(); w++ {
 		wg.Add(1)
 		go func() {
